@@ -58,14 +58,17 @@ def main(argv):
         repo = Repo()
         ctx = core.Ctx(prop, repo, tier)
         mod.run(ctx)
-        for name, measured, floor in ctx.floors:
-            if measured < floor:
-                raise AnalysisError("instance count of '%s' is %d, below the floor %d confirmed on the reference tree"
-                                    % (name, measured, floor))
-        if tier == "thorough" and hasattr(mod, "thorough"):
-            mod.thorough(ctx, seed)
         known = core.load_known()
         viol, kf = core.triage(ctx, known)
+        if not viol:
+            # an instance count below its floor is an analysis hole (exit 2) -- unless a violation was already found, which is reported first
+            for name, measured, floor in ctx.floors:
+                if measured < floor:
+                    raise AnalysisError("instance count of '%s' is %d, below the floor %d confirmed on the reference tree"
+                                        % (name, measured, floor))
+            if tier == "thorough":
+                from . import selftest, variants
+                selftest.run_selftest(ctx, seed, variants.variants_for(prop))
     except AnalysisError as e:
         print("ANALYSIS-ERROR property=%s %s" % (prop, e))
         return 2
